@@ -2,6 +2,7 @@
 import itertools
 import json
 import math
+import os
 from fractions import Fraction
 
 import numpy as np
@@ -13,21 +14,25 @@ import vlib
 
 EXPLANATION = (
     "tools/gen_poly.py re-extracts from polynomial.py, on every run, which Chebyshev orders, "
-    "restriction, rows and weights each method uses for every direction / end-point flag "
-    "(changeBasis on a rank-2 object for every ordered pair of axis kinds); Coq proves these "
-    "facts equal the model's, are mutually consistent and axis-independent. On the model "
-    "(Lib/Spectral.v, one definition instantiated over R and over rationals) and for "
-    "arbitrary distinct nodes / all sizes Coq proves: cardinal functions are a delta on the "
-    "grid; interpolation reproduces every admissible polynomial at every x (also with "
-    "dropped boundary points); every entry of _cardinalDeriv is the derivative of a "
-    "cardinal function, hence the derivative matrix is exact at all grid points incl. the "
-    "boundaries; T_n(cos t)=cos nt, T_n'=nU_{n-1}, exact degree n; restricted bases vanish at "
-    "the dropped points and _chebyshevDeriv holds their derivatives; Chebyshev and cardinal "
-    "evaluation agree; the basis matrix is square with trivial kernel; Gauss-Chebyshev-"
-    "Lobatto exactness and that integrate's weights (halved or dropped end points) realise "
-    "it. The rational instance of the model is compared by vm_compute with the running "
+    "restriction, rows, weights, identity size and matrix expression each method uses for "
+    "every direction / end-point flag (changeBasis on a rank-2 object for every ordered pair "
+    "of axis kinds), how matrix/derivMatrix dispatch, and scans every method for in-place "
+    "updates of objects it did not allocate; Coq proves these facts equal the model's, are "
+    "mutually consistent and axis-independent. On the model (Lib/Spectral.v, one definition "
+    "instantiated over R and over rationals) and for arbitrary distinct nodes / all sizes "
+    "Coq proves: cardinal functions are a delta on the grid; interpolation reproduces every "
+    "admissible polynomial at every x (also with dropped boundary points); every entry of "
+    "_cardinalDeriv is the derivative of a cardinal function, hence the derivative matrix is "
+    "exact at all grid points incl. the boundaries; the identity of _cardinalMatrix is the "
+    "matrix C_j(x_i); T_n(cos t)=cos nt, T_n'=nU_{n-1}, exact degree n; restricted bases "
+    "vanish at the dropped points and _chebyshevDeriv holds their derivatives; Chebyshev "
+    "and cardinal evaluation agree; the basis matrix is square with trivial kernel, "
+    "coefficients are unique and a computed inverse with zero residual gives both round "
+    "trips; Gauss-Chebyshev-Lobatto exactness and that integrate's weights realise it. The "
+    "rational instance of the model is compared by vm_compute with the running "
     "implementation on its own float nodes; the property is also evaluated directly on the "
-    "implementation against numpy.polynomial.chebyshev.")
+    "implementation against numpy.polynomial.chebyshev over sizes, grids, ranks <= 6, call "
+    "forms, element types, operation chains, labels of results and purity.")
 
 DIRS = ("z", "pz", "pp")
 COQDIR = {"z": "Dz", "pz": "Dpz", "pp": "Dpp"}
@@ -65,8 +70,9 @@ class AxisOracle:
 
     def __init__(self, grid, M, N, d, ep):
         self.M, self.N, self.d, self.ep = M, N, d, ep
-        self.full = np.asarray(grid.getCompactCoordinates(True, d), dtype=float)
-        self.nodes = np.asarray(grid.getCompactCoordinates(ep, d), dtype=float)
+        # copies: the oracle must not share memory with the grid it judges
+        self.full = np.array(grid.getCompactCoordinates(True, d), dtype=float, copy=True)
+        self.nodes = np.array(grid.getCompactCoordinates(ep, d), dtype=float, copy=True)
         self.size = axis_size(M, N, d, ep)
         assert self.size == len(self.nodes)
         if ep:
@@ -89,6 +95,12 @@ class AxisOracle:
         self.B = B
         # derivative at every point of the complete grid
         self.D = np.array([C.chebval(self.full, C.chebder(p)) for p in self.psi]).T
+        self.D2 = np.array([C.chebval(self.full, C.chebder(p, 2)) for p in self.psi]).T
+
+    def dE(self, y):
+        """values of the derivative at arbitrary points"""
+        return np.array([C.chebval(np.asarray(y, dtype=float), C.chebder(p))
+                         for p in self.psi]).T
 
     def E(self, y):
         return np.array([C.chebval(np.asarray(y, dtype=float), p) for p in self.psi]).T
@@ -140,13 +152,37 @@ def close(a, b, scale=None):
 # ----------------------------------------------------------------------------------
 # one configuration: sizes + axes
 
-def make_grid(M, N):
+GRID_KINDS = ("plain", "3scales", "rescaled", "3scales-rescaled")
+
+
+def make_grid(M, N, kind="plain"):
+    """the plain Grid, the Grid3Scales that WallGoManager builds, and both after the
+    re-scaling calls of the solver (the compact coordinates must not depend on any of it)"""
     from WallGo.grid import Grid
-    return Grid(M, N, 1.0, 1.0)
+    from WallGo.grid3Scales import Grid3Scales
+    if kind == "plain":
+        return Grid(M, N, 1.0, 1.0)
+    if kind == "rescaled":
+        g = Grid(M, N, 1.0, 1.0)
+        g.changeMomentumFalloffScale(2.5)
+        g.changePositionFalloffScale(0.7)
+        return g
+    g = Grid3Scales(M, N, 2.0, 3.0, 1.5, 1.2)
+    if kind == "3scales-rescaled":
+        g.changePositionFalloffScale(1.0, 2.0, 0.5, 0.1)
+        g.changeMomentumFalloffScale(0.8)
+    return g
+
+
+def grid_arrays(grid):
+    """every array the grid owns (purity checks)"""
+    return {k: np.array(v, copy=True) for k, v in vars(grid).items()
+            if isinstance(v, np.ndarray)}
 
 
 def spec_name(spec):
-    return "M%d N%d " % (spec["M"], spec["N"]) + ",".join(
+    return "M%d N%d %s" % (spec["M"], spec["N"], "" if spec.get("grid", "plain") == "plain"
+                           else spec["grid"] + " ") + ",".join(
         "A%d" % a["size"] if a["kind"] == "array" else
         "%s%s%s" % (a["d"], "+" if a["ep"] else "-", a["basis"][:4]) for a in spec["axes"])
 
@@ -155,7 +191,7 @@ def build(spec, rng):
     """oracle objects, random integer polynomial, the Polynomial object"""
     from WallGo.polynomial import Polynomial
     M, N = spec["M"], spec["N"]
-    grid = make_grid(M, N)
+    grid = make_grid(M, N, spec.get("grid", "plain"))
     orc = []
     shape = []
     for a in spec["axes"]:
@@ -224,14 +260,23 @@ def direct_config(ctx, spec, rng):
                             for i, o in enumerate(orc)])
 
     n = 0
+    gsnap = grid_arrays(grid)
     # --- change of basis: target = every axis swapped; then back (round trip) --------
     swapped = tuple(other_basis(b) for b in b0)
     try:
         p = make_poly(spec, grid, orc, A)
         p.changeBasis(swapped)
         n += 1
-        if not close(p.coefficients, expected_coeffs(swapped)):
+        if not close(p.coefficients, expected_coeffs(swapped)) or p.basis != swapped:
             fail("changeBasis%s gives wrong coefficients" % (swapped,), "changeBasis")
+        if polyaxes:                      # an operation on the result
+            y = np.array([[rng.uniform(-1, 1)] for _ in polyaxes])
+            n += 1
+            if not close(p.evaluate(y, axes=tuple(polyaxes))[0], contract(A, [
+                    None if o is None else o.E([y[polyaxes.index(i), 0]])[0]
+                    for i, o in enumerate(orc)])):
+                fail("evaluate after changeBasis%s is wrong" % (swapped,),
+                     "chain-changeBasis-evaluate")
         p.changeBasis(b0)
         n += 1
         if not close(p.coefficients, expected_coeffs(b0)):
@@ -323,11 +368,47 @@ def direct_config(ctx, spec, rng):
                                     for i, o in enumerate(orc)])
                 n += 1
                 ok = close(dp.coefficients, want)
-                okmeta = all(dp.basis[i] == "Cardinal" and dp.endpoints[i] is True
-                             for i in axes)
+                okmeta = (
+                    dp.basis == tuple("Cardinal" if i in axes else basis[i]
+                                      for i in range(rank)) and
+                    dp.endpoints == tuple(True if i in axes else eps[i]
+                                          for i in range(rank)) and
+                    all(e is True or e is False for e in dp.endpoints) and
+                    dp.direction == dirs and dp.grid is grid and dp.rank == rank)
                 if not ok or not okmeta:
-                    fail("derivative along %s wrong (basis %s)" % (axes, basis),
+                    fail("derivative along %s wrong (basis %s)%s" % (
+                        axes, basis, "" if okmeta else ": labels of the result"),
                          "derivative", axes=list(axes), basis=list(basis))
+                    continue
+                # one more operation on the result
+                kind = rng.choice(["evaluate", "second", "roundtrip"])
+                n += 1
+                if kind == "evaluate":
+                    y = [rng.uniform(-1, 1) for _ in polyaxes]
+                    got = dp.evaluate(np.array(y)[:, None], axes=tuple(polyaxes))[0]
+                    wantc = contract(A, [None if o is None else
+                                         (o.dE([y[polyaxes.index(i)]])[0] if i in axes else
+                                          o.E([y[polyaxes.index(i)]])[0])
+                                         for i, o in enumerate(orc)])
+                    okc = close(got, wantc, scale=1.0 + np.max(np.abs(want)))
+                elif kind == "second":
+                    j = axes[rng.randrange(len(axes))]
+                    d2 = dp.derivative(j)
+                    wantc = contract(A, [None if o is None else
+                                         (o.D2 if i == j else o.D if i in axes
+                                          else o.coeffs(basis[i]))
+                                         for i, o in enumerate(orc)])
+                    okc = close(d2.coefficients, wantc, scale=1.0 + 20 * np.max(np.abs(
+                        want))) and d2.endpoints[j] is True and d2.basis[j] == "Cardinal"
+                else:
+                    tgt = tuple("Chebyshev" if b != "Array" else b for b in dp.basis)
+                    back = dp.basis
+                    dp.changeBasis(tgt)
+                    dp.changeBasis(back)
+                    okc = close(dp.coefficients, want)
+                if not okc:
+                    fail("%s of the result of derivative along %s is wrong" % (kind, axes),
+                         "chain-derivative-" + kind, axes=list(axes), basis=list(basis))
     except Exception as ex:  # noqa: BLE001
         fail("derivative raised %r" % ex, "derivative-raises")
     # --- integration on the exactness class -------------------------------------------
@@ -356,16 +437,48 @@ def direct_config(ctx, spec, rng):
                                    P.polyval(o.nodes, r)).reshape(sh)
             for basis in (b0, swapped):
                 p = make_poly(spec, grid, orc, A2, basis)
+                w0 = weight.copy()
                 res = p.integrate(axes if len(axes) > 1 else axes[0], weight)
-                got = res.coefficients if isinstance(res, Polynomial) else res
-                want = contract(A2, [None if o is None else
-                                     (rows[i] if i in axes else o.coeffs(basis[i]))
-                                     for i, o in enumerate(orc)])
+                rest = [i for i in range(rank) if i not in axes]
                 n += 1
-                if not close(got, want, scale=1.0 + np.max(np.abs(want)) +
-                             np.max(np.abs(A2)) * 10):
-                    fail("integrate along %s is not exact on the exactness class" %
-                         (axes,), "integrate", axes=list(axes), basis=list(basis))
+                if not np.array_equal(w0, weight):
+                    fail("integrate changed the weight array it was given",
+                         "argument-mutated", op="integrate")
+                if isinstance(res, Polynomial):
+                    got = res.coefficients
+                    # the remaining axes are read in the representation the result declares
+                    okmeta = (res.rank == len(rest) and len(res.basis) == len(rest) and
+                              res.direction == tuple(dirs[i] for i in rest) and
+                              res.endpoints == tuple(eps[i] for i in rest) and
+                              all((res.basis[k] == "Array") == (basis[i] == "Array")
+                                  for k, i in enumerate(rest)) and res.grid is grid)
+                    lab = {i: (res.basis[k] if okmeta else basis[i])
+                           for k, i in enumerate(rest)}
+                else:
+                    got, okmeta, lab = res, (not rest and isinstance(res, float)), {}
+                want = contract(A2, [None if o is None else
+                                     (rows[i] if i in axes else o.coeffs(lab[i]))
+                                     for i, o in enumerate(orc)])
+                sci = 1.0 + np.max(np.abs(want)) + np.max(np.abs(A2)) * 10
+                if not okmeta or not close(got, want, scale=sci):
+                    fail("integrate along %s is not exact on the exactness class%s" % (
+                        axes, "" if okmeta else " (labels / type of the result)"),
+                         "integrate", axes=list(axes), basis=list(basis))
+                    continue
+                restpoly = [i for i in rest if orc[i] is not None]
+                if isinstance(res, Polynomial) and restpoly:    # an operation on the result
+                    y = [rng.uniform(-1, 1) for _ in restpoly]
+                    gote = res.evaluate(np.array(y)[:, None], axes=tuple(
+                        rest.index(i) for i in restpoly))[0]
+                    wante = contract(A2, [None if o is None else
+                                          (rows[i] if i in axes else
+                                           o.E([y[restpoly.index(i)]])[0])
+                                          for i, o in enumerate(orc)])
+                    n += 1
+                    if not close(gote, wante, scale=sci):
+                        fail("evaluate of the result of integrate along %s is wrong" %
+                             (axes,), "chain-integrate-evaluate", axes=list(axes),
+                             basis=list(basis))
     except Exception as ex:  # noqa: BLE001
         fail("integrate raised %r" % ex, "integrate-raises")
     # --- operations do not mutate their operand; repeating a call repeats the result ------
@@ -393,8 +506,12 @@ def direct_config(ctx, spec, rng):
 
             if polyaxes:
                 pts = np.array([[rng.uniform(-1, 1) for _ in range(2)] for _ in polyaxes])
+                pts0 = pts.copy()
                 e1 = p.evaluate(pts, axes=tuple(polyaxes))
                 same_poly("evaluate", True)
+                if not np.array_equal(pts, pts0):
+                    fail("evaluate changed the array of points it was given",
+                         "argument-mutated", op="evaluate")
                 e2 = p.evaluate(pts, axes=tuple(polyaxes))
                 d1 = p.derivative(tuple(polyaxes))
                 same_poly("derivative", True)
@@ -452,7 +569,319 @@ def direct_config(ctx, spec, rng):
                 fail("derivative is not linear", "linearity-derivative")
     except Exception as ex:  # noqa: BLE001
         fail("linear combination raised %r" % ex, "linearity-raises")
+    n += direct_matrices(ctx, spec, grid, orc, rng, fail)
+    n += direct_dtypes(ctx, spec, grid, orc, rng, fail)
+    n += direct_forms(ctx, spec, grid, orc, A, rng, fail)
+    # the grid's own arrays (nodes, physical coordinates, Jacobians) are untouched by all of it
+    n += 1
+    gnow = grid_arrays(grid)
+    if set(gnow) != set(gsnap) or any(not np.array_equal(gnow[k], gsnap[k], equal_nan=True)
+                                      for k in gsnap):
+        fail("an operation of Polynomial changed an array of the grid: %s" % sorted(
+            k for k in gsnap if k not in gnow or not np.array_equal(
+                gnow[k], gsnap[k], equal_nan=True)), "grid-mutated")
     return n
+
+
+# ----------------------------------------------------------------------------------
+# matrix / derivMatrix (the intertwiners of the Boltzmann solver), through an unrelated
+# object and through the default argument
+
+def direct_matrices(ctx, spec, grid, orc, rng, fail):
+    from WallGo.polynomial import Polynomial
+    M, N = spec["M"], spec["N"]
+    n = 0
+    seen = set()
+    for o in orc:
+        if o is None or (o.d, o.ep) in seen:
+            continue
+        seen.add((o.d, o.ep))
+        od = "pp" if o.d == "z" else "z"         # an object of another direction / size
+        other = Polynomial(np.zeros(axis_size(M, N, od, True)), grid, "Chebyshev", od, True)
+        a = np.array([rng.randint(-9, 9) for _ in range(o.size)], dtype=float)
+        for basis in ("Cardinal", "Chebyshev"):
+            try:
+                form = rng.randrange(3)
+                if o.ep is False and form == 0:
+                    m = other.matrix(basis, o.d)                    # default: no end points
+                    dm = other.derivMatrix(basis, o.d)
+                elif form == 1:
+                    m = other.matrix(basis, o.d, endpoints=o.ep)
+                    dm = other.derivMatrix(basis, o.d, endpoints=o.ep)
+                else:
+                    m = other.matrix(basis, o.d, o.ep)
+                    dm = other.derivMatrix(basis, o.d, o.ep)
+                m, dm = np.asarray(m), np.asarray(dm)
+                n += 2
+                c = o.coeffs(basis) @ a
+                if m.shape != (o.size, o.size) or not close(m @ c, o.V @ a):
+                    fail("matrix(%r, %r, %s) applied to the coefficients does not give the "
+                         "grid values" % (basis, o.d, o.ep), "matrix", basis=basis, d=o.d,
+                         ep=o.ep, a=a.tolist())
+                if dm.shape != (len(o.full), o.size) or not close(dm @ c, o.D @ a):
+                    fail("derivMatrix(%r, %r, %s) applied to the coefficients does not give "
+                         "the derivative on the complete grid" % (basis, o.d, o.ep),
+                         "derivMatrix", basis=basis, d=o.d, ep=o.ep, a=a.tolist())
+            except Exception as ex:  # noqa: BLE001
+                fail("matrix/derivMatrix(%r, %r, %s) raised %r" % (basis, o.d, o.ep, ex),
+                     "matrix-raises")
+    return n
+
+
+# ----------------------------------------------------------------------------------
+# container / element type of the coefficients
+
+CONTAINERS = ("list-int", "int64", "int32", "float32", "longdouble", "list-float",
+              "strided", "fortran")
+
+
+def as_container(C, kind):
+    if kind == "list-int":
+        return C.astype(int).tolist()
+    if kind == "int64":
+        return C.astype(np.int64)
+    if kind == "int32":
+        return C.astype(np.int32)
+    if kind == "float32":
+        return C.astype(np.float32)
+    if kind == "longdouble":
+        return C.astype(np.longdouble)
+    if kind == "list-float":
+        return C.tolist()
+    if kind == "strided":
+        big = np.zeros(tuple(2 * k for k in C.shape))
+        view = big[tuple(slice(None, None, 2) for _ in C.shape)]
+        view[...] = C
+        return view
+    return np.asfortranarray(C)
+
+
+def direct_dtypes(ctx, spec, grid, orc, rng, fail):
+    """Integer-valued coefficients handed over in other containers / element types give
+    the results of the float64 array (every coefficient vector is admissible in either
+    representation, so no oracle is needed beyond the float64 run checked elsewhere)."""
+    from WallGo.polynomial import Polynomial
+    b0, dirs, eps = tuples(spec)
+    rank = len(orc)
+    polyaxes = [i for i, o in enumerate(orc) if o is not None]
+    if not polyaxes:
+        return 0
+    shape = [o.size if o is not None else spec["axes"][i]["size"] for i, o in enumerate(orc)]
+    Cf = np.array([rng.randint(-9, 9) for _ in range(int(np.prod(shape)))],
+                  dtype=float).reshape(shape)
+    swapped = tuple(other_basis(b) for b in b0)
+    pts = np.array([[rng.uniform(-1, 1) for _ in range(2)] for _ in polyaxes])
+    wsh = [1] * rank
+    wsh[polyaxes[0]] = shape[polyaxes[0]]
+    weight = np.array([rng.uniform(0.5, 2.0) for _ in range(shape[polyaxes[0]])]).reshape(wsh)
+
+    def ops(coeff):
+        out = {}
+        p = Polynomial(coeff, grid, b0, dirs, eps)
+        p.changeBasis(swapped)
+        out["changeBasis"] = np.array(p.coefficients, dtype=float)
+        p = Polynomial(coeff, grid, b0, dirs, eps)
+        out["evaluate"] = np.array(p.evaluate(pts, axes=tuple(polyaxes)), dtype=float)
+        out["derivative"] = np.array(p.derivative(tuple(polyaxes)).coefficients, dtype=float)
+        r = p.integrate(polyaxes[0], weight)
+        out["integrate-weight"] = np.array(r.coefficients if isinstance(r, Polynomial)
+                                           else r, dtype=float)
+        p = Polynomial(coeff, grid, b0, dirs, eps)
+        try:
+            r = p.integrate(tuple(polyaxes))
+            out["integrate"] = np.array(r.coefficients if isinstance(r, Polynomial) else r,
+                                        dtype=float)
+        except Exception as ex:  # noqa: BLE001
+            out["integrate"] = ex
+        return out
+
+    n = 0
+    try:
+        ref = ops(Cf.copy())
+    except Exception as ex:  # noqa: BLE001
+        fail("operations on float64 coefficients raised %r" % ex, "dtype-raises")
+        return 1
+    kinds = CONTAINERS if rank == 1 else rng.sample(CONTAINERS, 3)
+    for kind in kinds:
+        try:
+            got = ops(as_container(Cf, kind))
+        except Exception as ex:  # noqa: BLE001
+            fail("operations on coefficients given as %s raised %r" % (kind, ex),
+                 "dtype-raises", container=kind, C=Cf.astype(int).ravel().tolist())
+            n += 1
+            continue
+        for op, want in ref.items():
+            n += 1
+            g = got[op]
+            if isinstance(want, Exception):
+                continue
+            if isinstance(g, Exception):
+                integer = kind in ("list-int", "int64", "int32")
+                if op == "integrate" and integer and type(g).__name__ == "UFuncTypeError":
+                    # defect fixed in /repo (a violation if it returns): integrate() without a weight on integer-typed data
+                    ctx.fail_input(
+                        "integrate() without a weight raises %s on integer-typed "
+                        "coefficients (%s) [%s]" % (type(g).__name__, kind, spec_name(spec)),
+                        dict(kind="known", which="integrate-int"),
+                        key="integrate-integer-coefficients-raises")
+                else:
+                    fail("%s on coefficients given as %s raised %r" % (op, kind, g),
+                         "dtype-raises", container=kind, op=op,
+                         C=Cf.astype(int).ravel().tolist())
+                continue
+            tol_scale = (1.0 + np.max(np.abs(want))) * (2e4 if kind == "float32" else 1.0)
+            if not close(g, want, scale=tol_scale):
+                fail("%s on coefficients given as %s differs from the result for the same "
+                     "numbers as float64" % (op, kind), "dtype-" + op, container=kind,
+                     C=Cf.astype(int).ravel().tolist())
+    return n
+
+
+# ----------------------------------------------------------------------------------
+# call forms: every documented way of passing the same request gives the same answer
+
+def direct_forms(ctx, spec, grid, orc, A, rng, fail):
+    from WallGo.polynomial import Polynomial
+    b0, dirs, eps = tuples(spec)
+    rank = len(orc)
+    polyaxes = [i for i, o in enumerate(orc) if o is not None]
+    arrays = [i for i, o in enumerate(orc) if o is None]
+    if not polyaxes:
+        return 0
+    n = 0
+    coeff = contract(A, [None if o is None else o.coeffs(b0[i]) for i, o in enumerate(orc)])
+
+    def mk(c=None):
+        return Polynomial(np.array(coeff if c is None else c, dtype=float), grid, b0, dirs,
+                          eps)
+
+    def meta(q):
+        return (q.basis, q.direction, q.endpoints, q.rank)
+
+    try:
+        # constructor: one string / bool for all axes; defaults
+        if len(set(b0)) == 1 and len(set(dirs)) == 1 and len(set(eps)) == 1:
+            q = Polynomial(coeff.copy(), grid, b0[0], dirs[0], eps[0])
+            n += 1
+            if meta(q) != meta(mk()):
+                fail("constructor with string/bool arguments labels the axes differently",
+                     "forms-constructor")
+            if (b0[0], dirs[0], eps[0]) == ("Cardinal", "z", False):
+                q = Polynomial(coeff.copy(), grid)
+                n += 1
+                if meta(q) != meta(mk()):
+                    fail("constructor defaults are not (Cardinal, z, no end points)",
+                         "forms-constructor")
+        # changeBasis: a single string for all axes
+        for tgt in ("Chebyshev", "Cardinal"):
+            tup = tuple(tgt if b != "Array" else "Array" for b in b0)
+            ref = mk()
+            ref.changeBasis(tup)
+            q = mk()
+            q.changeBasis(tgt)
+            n += 1
+            if q.coefficients.shape != ref.coefficients.shape or \
+                    not close(q.coefficients, ref.coefficients):
+                fail("changeBasis(%r) differs from the tuple form" % tgt, "forms-changeBasis")
+            elif q.basis != tup:
+                if arrays and all(q.basis[i] == tup[i] for i in polyaxes):
+                    # defect fixed in /repo (a violation if it returns): the string form relabels 'Array' axes
+                    ctx.fail_input(
+                        "changeBasis(%r) labels the Array axes %s as %s [%s]" % (
+                            tgt, arrays, [q.basis[i] for i in arrays], spec_name(spec)),
+                        dict(kind="known", which="string-relabel"),
+                        key="changeBasis-string-relabels-array-axis")
+                else:
+                    fail("changeBasis(%r) leaves the labels %s" % (tgt, q.basis),
+                         "forms-changeBasis")
+        # derivative / integrate: int, tuple, permuted tuple, keyword, None
+        p = mk()
+        allax = tuple(polyaxes)
+        perm = tuple(reversed(allax))
+        d_ref = p.derivative(allax)
+        for form, call in (("permuted", lambda: p.derivative(perm)),
+                           ("keyword", lambda: p.derivative(axis=allax)),
+                           ("list->tuple int", lambda: p.derivative(allax[0])
+                            if len(allax) == 1 else p.derivative(axis=allax))):
+            q = call()
+            n += 1
+            if meta(q) != meta(d_ref) or not close(q.coefficients, d_ref.coefficients):
+                fail("derivative with %s axis argument differs" % form, "forms-derivative")
+        i_ref = mk().integrate(allax)
+        val = lambda r: r.coefficients if isinstance(r, Polynomial) else r   # noqa: E731
+        forms = [("permuted", lambda: mk().integrate(perm)),
+                 ("keyword", lambda: mk().integrate(axis=allax, weight=1)),
+                 ("weight=None", lambda: mk().integrate(allax, None))]
+        if not arrays:
+            forms.append(("axis=None", lambda: mk().integrate()))
+            forms.append(("axis=None keyword", lambda: mk().integrate(axis=None)))
+        if len(allax) == 1:
+            forms.append(("int", lambda: mk().integrate(allax[0])))
+        for form, call in forms:
+            r = call()
+            n += 1
+            if type(r) is not type(i_ref) or not close(val(r), val(i_ref), scale=1.0 + np.max(
+                    np.abs(coeff)) * 10):
+                fail("integrate with %s differs from the tuple form" % form,
+                     "forms-integrate")
+        # evaluate: list / array of points, axes=None, permuted axes, single point
+        pts = np.array([[rng.uniform(-1, 1) for _ in range(3)] for _ in polyaxes])
+        e_ref = p.evaluate(pts, axes=allax)
+        forms = [("list of points", lambda: p.evaluate(pts.tolist(), axes=allax)),
+                 ("positional axes", lambda: p.evaluate(pts, allax)),
+                 ("permuted axes", lambda: p.evaluate(pts[::-1], axes=perm))]
+        if not arrays:
+            forms.append(("axes=None", lambda: p.evaluate(pts)))
+        for form, call in forms:
+            r = call()
+            n += 1
+            if not close(r, e_ref):
+                fail("evaluate with %s differs" % form, "forms-evaluate")
+        n += 1
+        try:
+            r = p.evaluate(pts[:, 0], axes=allax)
+            if not close(r, e_ref[0]):
+                fail("evaluate at a single point differs from the first of several points",
+                     "forms-evaluate")
+            if not arrays and not isinstance(r, float):
+                fail("evaluate at a single point does not return a float",
+                     "forms-evaluate")
+        except TypeError as ex:
+            if arrays and "scalar" in str(ex):
+                # defect fixed in /repo (a violation if it returns): float(result[0]) with spectator axes
+                ctx.fail_input(
+                    "evaluate at a single point raises TypeError when spectator axes remain "
+                    "[%s]" % spec_name(spec), dict(kind="known", which="single-point"),
+                    key="evaluate-single-point-spectator-raises")
+            else:
+                raise
+        # arithmetic of the class and indexing
+        _, _, A2 = build({k: v for k, v in spec.items() if k != "A"}, rng)
+        c2 = contract(A2, [None if o is None else o.coeffs(b0[i]) for i, o in enumerate(orc)])
+        p2 = mk(c2)
+        for form, q, want in (("p - q", p - p2, coeff - c2), ("3 - p", 3.0 - p, 3.0 - coeff),
+                              ("2 + p", 2.0 + p, 2.0 + coeff), ("p * q", p * p2, coeff * c2),
+                              ("p * 2", p * 2.0, coeff * 2.0)):
+            n += 1
+            if meta(q) != meta(p) or not close(q.coefficients, want):
+                fail("%s has wrong coefficients or labels" % form, "forms-arithmetic")
+        k = rng.randrange(coeff.shape[0])
+        q = p[k]
+        n += 1
+        if q.basis != b0[1:] or q.direction != dirs[1:] or q.endpoints != eps[1:] or \
+                not np.array_equal(q.coefficients, coeff[k]):
+            fail("p[%d] is not the slice with the labels of the remaining axes" % k,
+                 "forms-getitem")
+        q = p[None]
+        n += 1
+        if q.basis != ("Array",) + b0 or q.coefficients.shape != (1,) + coeff.shape or \
+                q.direction[1:] != dirs or q.endpoints[1:] != eps:
+            fail("p[None] does not add a leading Array axis", "forms-getitem")
+    except Exception as ex:  # noqa: BLE001
+        fail("a documented call form raised %r" % ex, "forms-raises")
+    return n
+
+
 
 
 def gen_specs(ctx, rng):
@@ -480,6 +909,29 @@ def gen_specs(ctx, rng):
         specs.append(dict(M=M, N=N, axes=[
             dict(kind="poly", d=a[0], ep=a[1], basis=rng.choice(["Cardinal", "Chebyshev"])),
             dict(kind="poly", d=b[0], ep=b[1], basis=rng.choice(["Cardinal", "Chebyshev"]))]))
+    # production-like sizes (rank 1) and the grids WallGoManager really builds
+    for (M, N) in ([(12, 11), (20, 15)] if ctx.quick else
+                   [(12, 11), (20, 15), (16, 13), (25, 19), (30, 11), (9, 21)]):
+        for d in DIRS:
+            for ep in (False, True):
+                specs.append(dict(M=M, N=N, grid=rng.choice(GRID_KINDS), axes=[
+                    dict(kind="poly", d=d, ep=ep,
+                         basis=rng.choice(["Cardinal", "Chebyshev"]))]))
+    # ranks 5 and 6 (the collision array is rank 6: (Array, pz, pp, Array, pz, pp))
+    specs.append(dict(M=3, N=3, grid="3scales", axes=[
+        dict(kind="array", size=2), dict(kind="poly", d="pz", ep=False, basis="Cardinal"),
+        dict(kind="poly", d="pp", ep=False, basis="Cardinal"), dict(kind="array", size=2),
+        dict(kind="poly", d="pz", ep=False, basis="Cardinal"),
+        dict(kind="poly", d="pp", ep=False, basis="Cardinal")]))
+    for _ in range(ctx.n(3, 30)):
+        rank = rng.choice([5, 6])
+        axes = [dict(kind="array", size=rng.randint(1, 2)) if rng.random() < 0.35 else
+                dict(kind="poly", d=rng.choice(DIRS), ep=rng.random() < 0.4,
+                     basis=rng.choice(["Cardinal", "Chebyshev"])) for _i in range(rank)]
+        if all(a["kind"] == "array" for a in axes):
+            axes[0] = dict(kind="poly", d="z", ep=False, basis="Cardinal")
+        specs.append(dict(M=rng.choice([2, 3]), N=3, grid=rng.choice(GRID_KINDS),
+                          axes=axes))
     for _ in range(ctx.n(40, 600)):
         rank = rng.choice([2, 3, 3, 4, 4])
         M, N = rng.choice(sizes_all if rank < 4 else
@@ -494,7 +946,7 @@ def gen_specs(ctx, rng):
         if all(a["kind"] == "array" for a in axes):
             axes[rng.randrange(rank)] = dict(kind="poly", d=rng.choice(DIRS), ep=False,
                                              basis="Cardinal")
-        specs.append(dict(M=M, N=N, axes=axes))
+        specs.append(dict(M=M, N=N, grid=rng.choice(GRID_KINDS), axes=axes))
     return specs
 
 
@@ -534,12 +986,74 @@ Definition bclose (tol a b : bigQ) : bool :=
 Definition Mclose tol := mclose (bclose tol).
 Definition Lclose tol := lclose (bclose tol).
 Definition Tsame tol := tsame (bclose tol).
+Definition Lnonneg (l : list bigQ) : bool :=
+  forallb (fun v => match BigQ.compare v BigQ.zero with Lt => false | _ => true end) l.
 """
 
 
 def cq(x):
     q = vlib.frac(x)
     return "(bq (%d) %d)" % (q.numerator, q.denominator)
+
+
+JOBS = 4
+
+
+def run_cases(ctx, name, header, cases, per_file, timeout):
+    """Like vlib.Ctx.run_cases, but: a pool of at most JOBS coqc processes, the case list is
+    evaluated once, and a time-out is retried alone and then reported AS a time-out (a
+    statement about the machine, not about the property)."""
+    import subprocess
+    from concurrent.futures import ThreadPoolExecutor
+    import re
+    files = []
+    for k in range(0, len(cases), per_file):
+        chunk = cases[k:k + per_file]
+        body = header + "\nDefinition cases : list bool :=\n  [" + ";\n   ".join(chunk) + \
+            "].\nDefinition failing := Eval vm_compute in map fst (filter (fun p => negb " \
+            "(snd p)) (combine (seq 0 (length cases)) cases)).\nPrint failing.\n" \
+            "Goal failing = []. Proof. reflexivity. Qed.\n"
+        files.append((k, ctx.write("Cases/%s_%d.v" % (name, k // per_file), body)))
+
+    def one(job, tmo=timeout):
+        k, path = job
+        rc, out, err = vlib.sh(["timeout", str(tmo), "coqc"] + ctx.coq_args() + [path],
+                               timeout=tmo + 30, cwd=ctx.bdir)
+        return k, path, rc, out, err
+
+    with ThreadPoolExecutor(JOBS) as ex:
+        res = list(ex.map(one, files))
+    bad = []
+    for k, path, rc, out, err in res:
+        if rc == 0:
+            continue
+        if rc in (124, 137) or "TIMEOUT" in err:
+            k, path, rc, out, err = one((k, path), 3 * timeout)      # alone, three times longer
+            if rc == 0:
+                continue
+            if rc in (124, 137) or "TIMEOUT" in err:
+                bad.append(dict(file=os.path.relpath(path, vlib.VERIF), first=k, cases=[],
+                                err="coqc timed out", timeout=True))
+                continue
+        idx = re.search(r"=\s*\[([^\]]*)\]", out)
+        which = [k + int(x.strip().rstrip("%nat")) for x in idx.group(1).split(";")
+                 if x.strip()] if idx else []
+        bad.append(dict(file=os.path.relpath(path, vlib.VERIF), first=k, cases=which,
+                        err=vlib.tail(err), timeout=False))
+    return bad
+
+
+def report_bad(ctx, bad, describe):
+    for b in bad:
+        if b.get("timeout"):
+            ctx.broken.append("harness-timeout (coqc did not finish %s even alone with a "
+                              "tripled limit; NOT a verdict on the property)" % b["file"])
+            ctx.log("TIME-OUT, not a property verdict:", b["file"])
+            continue
+        names = describe(b["cases"])
+        ctx.broken.append("correspondence:%s %s" % (",".join(sorted(set(
+            n[0] if isinstance(n, tuple) else str(n) for n in names))) or "cases", b["file"]))
+        ctx.log("correspondence failure", b["file"], names[:6], b["err"][-300:])
 
 
 def corr_matrices(ctx, sizes):
@@ -569,6 +1083,13 @@ def corr_matrices(ctx, sizes):
                 terms.append("Mclose %s (chebyshevMatrix QO %s %s %s) %s" % (
                     tol, cd, D, g, qmat(p.matrix("Chebyshev", d, ep))))
                 info.append(("chebyshevMatrix", M, N, d, ep))
+                # _cardinalMatrix through matrix("Cardinal", ..): the model's identity and
+                # the definition C_j(x_i) it stands for; default argument when ep is False
+                cm = p.matrix("Cardinal", d, ep) if ep else p.matrix("Cardinal", d)
+                terms.append("Mclose %s (matrix QO Cardinal %s %s %s) %s && Mclose %s "
+                             "(cardinalMatrixDef QO %s %s %s %d %d) %s" % (
+                                 tol, cd, D, g, qmat(cm), tol, cd, D, g, M, N, qmat(cm)))
+                info.append(("cardinalMatrix", M, N, d, ep))
                 for b in ("Cardinal", "Chebyshev"):
                     terms.append("Mclose %s (derivMatrix QO %s %s %s %s) %s" % (
                         cq(Fraction(M * M * N * N, 10 ** 9)), b, cd, D, g,
@@ -588,8 +1109,8 @@ def corr_matrices(ctx, sizes):
                                (ep, False))
                 f = q.integrate(0).coefficients
                 sq = [Fraction(float(v)) ** 2 / pi2 for v in f]
-                terms.append("Lclose %s (intFactorSq QO %s %s %s %d %d) %s" % (
-                    tol, cd, D, g, M, N, qlist(sq)))
+                terms.append("Lclose %s (intFactorSq QO %s %s %s %d %d) %s && Lnonneg %s" % (
+                    tol, cd, D, g, M, N, qlist(sq), qlist(f)))
                 info.append(("intFactorSq", M, N, d, ep))
         yield (M, N), "\n".join(hdr), terms, info
         terms, info = [], []
@@ -670,8 +1191,61 @@ def tensor_specs(ctx, rng):
     return specs, sizes
 
 
+def known_replays(ctx):
+    """the recorded inputs of three defects found by the white-box audit and fixed in /repo
+    (21e384b, ffe84c7, bc69bdc; listed under "fixed" in known_findings.json), replayed
+    first on every run: their return is a violation"""
+    from WallGo.polynomial import Polynomial
+    g = make_grid(4, 5)
+    # 1. string form of changeBasis relabels an Array axis
+    try:
+        A = np.array([[1.0, 6.0, 1.0]])
+        p = Polynomial(A.copy(), g, ("Array", "Cardinal"), ("z", "z"), (False, False))
+        p.changeBasis("Chebyshev")
+        lab = p.basis
+        try:
+            p.changeBasis("Cardinal")
+            back = p.coefficients.shape == A.shape and np.allclose(p.coefficients, A)
+        except Exception:  # noqa: BLE001
+            back = False
+        if lab[0] != "Array" or not back:
+            ctx.fail_input("changeBasis('Chebyshev') on (Array, z) coefficients [[1,6,1]] "
+                           "labels the Array axis %r; the way back gives shape %s" % (
+                               lab[0], p.coefficients.shape),
+                           dict(kind="known", which="string-relabel"),
+                           key="changeBasis-string-relabels-array-axis")
+    except Exception as ex:  # noqa: BLE001
+        ctx.fail_input("replay of the string-form changeBasis finding raised %r" % ex,
+                       dict(kind="known", which="string-relabel"), key="known-replay-raises")
+    # 2. integrate() of integer-typed grid values
+    try:
+        r = Polynomial([1, 6, 1], g, "Cardinal", "z", False).integrate()
+        ref = Polynomial([1.0, 6.0, 1.0], g, "Cardinal", "z", False).integrate()
+        if not close(r, ref):
+            ctx.fail_input("integrate() of [1, 6, 1] gives %r, of the same floats %r" % (r, ref),
+                           dict(kind="known", which="integrate-int"), key="dtype-integrate")
+    except Exception as ex:  # noqa: BLE001
+        ctx.fail_input("Polynomial([1, 6, 1], grid).integrate() raises %s" % type(ex).__name__,
+                       dict(kind="known", which="integrate-int"),
+                       key="integrate-integer-coefficients-raises"
+                       if type(ex).__name__ == "UFuncTypeError" else "dtype-raises")
+    # 3. single-point evaluate with a spectator axis
+    try:
+        p = Polynomial(np.ones((2, 3)), g, ("Array", "Cardinal"), ("z", "z"), (False, False))
+        r = p.evaluate(np.array([0.3]), axes=(1,))
+        if not close(r, p.evaluate(np.array([[0.3]]), axes=(1,))[0]):
+            ctx.fail_input("single-point evaluate with a spectator axis gives %r" % (r,),
+                           dict(kind="known", which="single-point"), key="forms-evaluate")
+    except TypeError as ex:
+        ctx.fail_input("evaluate(np.array([0.3]), axes=(1,)) on (Array, z) raises TypeError",
+                       dict(kind="known", which="single-point"),
+                       key="evaluate-single-point-spectator-raises"
+                       if "scalar" in str(ex) else "forms-raises")
+
+
 def run(ctx):
     rng = ctx.rng
+    known_replays(ctx)
     for name in ("polynomial.py", "grid.py"):
         src = vlib.read_src(name)
         ctx.gen_sources[name] = dict(file="src/WallGo/" + name, sha=vlib.sha(src))
@@ -681,9 +1255,12 @@ def run(ctx):
         ctx.write("PolyCfg.v", text, sources=dict(
             file="src/WallGo/polynomial.py", sha=vlib.sha(vlib.read_src("polynomial.py")),
             facts=facts))
+        gen_poly.methods(vlib.read_src("grid.py"), "Grid")      # plain class, not patched
     except gen_poly.TranslateError as e:
-        ctx.log("fact extraction failed:", e)
-        ctx.broken.append("translator: %s" % e)
+        ctx.log("TRANSLATOR-OUT-OF-SUBSET (the source left the subset the fact extractor "
+                "understands; the correspondence and the direct validation below still "
+                "run and decide whether an input fails):", e)
+        ctx.broken.append("translator-out-of-subset: %s" % e)
         gen_ok = False
     if gen_ok:
         ctx.prove(extra=["PolyCfg.v"])
@@ -695,15 +1272,11 @@ def run(ctx):
     grids_hdr = {}
     for (M, N), hdr, terms, info in corr_matrices(ctx, msizes):
         grids_hdr[(M, N)] = hdr
-        bad = ctx.run_cases("mat_%d_%d" % (M, N), CORR_HEADER + hdr + "\n", terms,
-                            per_file=40, timeout=900, jobs=12)
+        bad = run_cases(ctx, "mat_%d_%d" % (M, N), CORR_HEADER + hdr + "\n", terms,
+                        per_file=30, timeout=600)
         for t in info:
             ctx.count("model_matrix", list(t), bucket=t[0])
-        for b in bad:
-            names = [info[i - 0] for i in b["cases"] if i < len(info)]
-            ctx.broken.append("correspondence:%s %s" % (
-                ",".join(sorted({t[0] for t in names})) or "matrices", b["file"]))
-            ctx.log("correspondence failure", b["file"], names[:6], b["err"][-300:])
+        report_bad(ctx, bad, lambda cs, info=info: [info[i] for i in cs if i < len(info)])
     specs, tsizes = tensor_specs(ctx, rng)
     for (M, N) in tsizes:
         if (M, N) not in grids_hdr:
@@ -722,13 +1295,9 @@ def run(ctx):
                            dict(kind="direct", spec=spec, check="raises"),
                            key="tensor-op-raises")
     hdr_all = CORR_HEADER + "\n".join(grids_hdr[s] for s in tsizes) + "\n"
-    bad = ctx.run_cases("tens", hdr_all, terms, per_file=8, timeout=900, jobs=14)
-    for b in bad:
-        which = [tinfo[i] for i in b["cases"] if i < len(tinfo)]
-        ctx.broken.append("correspondence:%s %s" % (
-            ",".join(sorted({k for k, _ in which})) or "tensor", b["file"]))
-        ctx.log("correspondence failure", b["file"],
-                [(k, spec_name(s)) for k, s in which][:6], b["err"][-300:])
+    bad = run_cases(ctx, "tens", hdr_all, terms, per_file=8, timeout=600)
+    report_bad(ctx, bad, lambda cs: [(tinfo[i][0], spec_name(tinfo[i][1])) for i in cs
+                                     if i < len(tinfo)])
     ctx.sample(dict(model_vs_impl="mclose tol (tnMatrix QOps Dz false g 4 5) <impl matrix>",
                     sizes=msizes, tensor_cases=len(terms)))
     # --- direct validation against numpy.polynomial.chebyshev ----------------------------
@@ -744,11 +1313,18 @@ def run(ctx):
         ctx.count("direct_config", spec, bucket="rank%d" % len(spec["axes"]))
     ctx.sample(dict(direct_checks=nchecks))
     ctx.cov["rule"] = (
-        "configuration = (M in 2..8, N in {3,5,7,9}, per axis: direction z/pz/pp, end "
-        "points kept or dropped, Cardinal/Chebyshev/Array); rank 1 exhaustive with every "
-        "degree cut, rank 2 every ordered pair of (direction, endpoints), ranks 2-4 "
-        "sampled with mixed Array axes; random integer coefficients in the admissible "
-        "space (vanishing at dropped boundary points); distinct = distinct configuration")
+        "configuration = (M in 2..8, N in {3,5,7,9} plus production-like sizes up to M=30, "
+        "N=21 at rank 1; grid = Grid / Grid3Scales / either after the re-scaling calls; per "
+        "axis: direction z/pz/pp, end points kept or dropped, Cardinal/Chebyshev/Array); rank "
+        "1 exhaustive with every degree cut, rank 2 every ordered pair of (direction, "
+        "endpoints), ranks 2-6 sampled with mixed Array axes; random integer coefficients in "
+        "the admissible space; per configuration: every operation, one further operation on "
+        "every result, labels of every returned object, matrix/derivMatrix through an "
+        "unrelated object and default arguments, 8 containers / element types of the "
+        "coefficients, every documented call form (string/tuple, int/tuple/permuted/None "
+        "axis, keyword/positional, list/array points, single point), arithmetic and "
+        "indexing of the class, operand / arguments / grid unchanged; distinct = distinct "
+        "configuration")
     ctx.assumptions += [
         "np.linalg.inv returns the inverse of the basis matrix (validated: the forward "
         "model matrix applied to the implementation's output reproduces the input)",
@@ -757,7 +1333,12 @@ def run(ctx):
         "allocating and np.asarray / reshapes / attributes / arguments as views (validated "
         "by the operand-unchanged and call-twice runs)",
         "numpy expand_dims/sum plumbing is validated by the rank<=4 runs against the "
-        "model's nested-list operator and the numpy oracle, not proved"]
+        "model's nested-list operator and by ranks <= 6 against the numpy oracle, not proved",
+        "element types are not modelled: other containers / dtypes are compared with the "
+        "float64 run of the same numbers",
+        "tolerances (2e-9 relative in the direct checks, 1e-9 absolute on O(1) matrix "
+        "entries, M^2 N^2 1e-9 on derivative matrices) are generous multiples of the "
+        "binary64 rounding of these well-conditioned small systems, not derived bounds"]
     ctx.trusted += ["numpy.polynomial.chebyshev (independent oracle of the direct checks)"]
 
 
@@ -772,7 +1353,7 @@ def check_nodes(ctx, M, N):
         ctx.count("grid_nodes", [M, N, d])
         ok = (full.shape == want.shape and np.all(np.diff(full) > 0) and
               full[0] == -1.0 and full[-1] == 1.0 and
-              np.max(np.abs(full - want)) < 4e-16)
+              np.max(np.abs(full - want)) < 1e-14)   # any formula good to a few ulp
         part = np.asarray(grid.getCompactCoordinates(False, d), dtype=float)
         okp = np.array_equal(part, full[1:-1] if d != "pp" else full[:-1])
         if not (ok and okp):
@@ -789,6 +1370,14 @@ def replay(rep):
     if rep.get("kind") == "nodes":
         g = make_grid(rep["M"], rep["N"])
         print("nodes", rep["d"], g.getCompactCoordinates(True, rep["d"]))
+        return 0
+    if rep.get("kind") == "known":
+        class K:
+            known = {"findings": []}
+
+            def fail_input(self, what, r, key=None):
+                print("REPRODUCED [%s]: %s" % (key, what))
+        known_replays(K())
         return 0
     if spec is None:
         return 0
